@@ -2,6 +2,7 @@ import LdkModel.Driver.Util
 import LdkModel.Model.Noise
 import LdkModel.Model.Framing
 import LdkModel.Model.PeerMsgs
+import LdkModel.Model.EphKey
 import LdkModel.Prim.Sha256
 import LdkModel.Prim.Hkdf
 import LdkModel.Prim.ChaChaPoly
@@ -31,6 +32,9 @@ import LdkModel.Prim.ChaChaPoly
      rcr <n>                        → wire length of a reply_channel_range carrying n short channel ids
      runc <chunk sizes>             → calls=<handler methods the dispatch table names for the messages passed up, in order|-> <open|disc>
                                       (same nodeRun; the recording handlers of the harness must have seen exactly these calls)
+     eph <seed hex> <k>             → the ephemeral SECRET key of the k-th get_ephemeral_key call (k from 0) of a
+                                      PeerManager created with that `ephemeral_random_data`: EphKey.runConns with
+                                      SHA-256 over the translated preimage (Generated/PeerEph.lean)
      gate <hex>                     → one gateStep on a plaintext message (state kept): init|up|up+disc|ignored|disc
 -/
 namespace Ldk.Driver
@@ -214,6 +218,9 @@ def c15step (st : C15St) (ws : List String) : C15St × String :=
     let (g1, o) := gateStep classify (fun _ => true) st.gate (unhex m)
     ({ st with gate := g1 }, match o with
       | .initOk => "init" | .passUp _ => "up" | .passUpDisc _ => "up+disc" | .ignored => "ignored" | .disconnect => "disc")
+  | ["eph", seed, k] =>
+    let ks := EphKey.runConns Prim.sha256 (unhex seed) EphKey.EphSt.fresh (List.replicate (nat! k + 1) EphKey.ConnOp.hook)
+    (st, match ks[nat! k]? with | some key => hex key | none => "err")
   | _ => (st, "bad-op")
 
 def c15cipher : Drv where
